@@ -504,15 +504,16 @@ package raft
 //@   ensures [nonnil] forall o *Operation :: o in r.pendingReadOnly ==> o != nil
 //@   requires r.pendingReadOnly != nil
 //@   requires forall o *Operation :: o in r.pendingReadOnly ==> o != nil
-//@   ensures [spec] result != nil && forall o *Operation :: o in result ==> o != nil && o.readIndex <= applyIndex && (o.OperationType == LinearizableReadOnly ==> o.quorumVerified) && (o.OperationType == LinearizableReadOnly || o.OperationType == LeaseBasedReadOnly)
+//@   ensures [fresh] fresh(result)
+//@   ensures [spec] result != nil && forall o *Operation :: o in result ==> o != nil && allocated(o) && o.readIndex <= applyIndex && (o.OperationType == LinearizableReadOnly ==> o.quorumVerified) && (o.OperationType == LinearizableReadOnly || o.OperationType == LeaseBasedReadOnly)
 //@   ensures [removed] forall o *Operation :: o in result ==> !(o in r.pendingReadOnly)
-//@   loop range r.pendingReadOnly invariant [spec] forall o *Operation :: o in appliableOperations ==> o != nil && o.readIndex <= applyIndex && (o.OperationType == LinearizableReadOnly ==> o.quorumVerified) && (o.OperationType == LinearizableReadOnly || o.OperationType == LeaseBasedReadOnly) && !(o in r.pendingReadOnly)
+//@   loop range r.pendingReadOnly invariant [spec] forall o *Operation :: o in appliableOperations ==> o != nil && allocated(o) && o.readIndex <= applyIndex && (o.OperationType == LinearizableReadOnly ==> o.quorumVerified) && (o.OperationType == LinearizableReadOnly || o.OperationType == LeaseBasedReadOnly) && !(o in r.pendingReadOnly)
 //@   loop range r.pendingReadOnly invariant [nonnil] forall o *Operation :: o in r.pendingReadOnly ==> o != nil
 
 //@ func Raft.readOnlyLoop
 //@   at call r.operationManager.appliableReadOnlyOperations assert [batch-guard] r.state == Leader && committedThisTermSpec(r)
 //@   release s2 [serve] r.state == Leader && operation != nil && operation.readIndex <= r.lastApplied && (operation.OperationType == LinearizableReadOnly ==> operation.quorumVerified) && (operation.OperationType == LeaseBasedReadOnly ==> now < r.operationManager.leaderLease.expiration)
-//@   loop range appliableOperations invariant [batch] forall o *Operation :: o in appliableOperations ==> o != nil && o.readIndex <= r.lastApplied && (o.OperationType == LinearizableReadOnly ==> o.quorumVerified) && (o.OperationType == LinearizableReadOnly || o.OperationType == LeaseBasedReadOnly)
+//@   loop range appliableOperations invariant [batch] forall o *Operation :: o in appliableOperations ==> o != nil && allocated(o) && o.readIndex <= r.lastApplied && (o.OperationType == LinearizableReadOnly ==> o.quorumVerified) && (o.OperationType == LinearizableReadOnly || o.OperationType == LeaseBasedReadOnly)
 //@   loop range appliableOperations invariant [leader] r.state == Leader
 
 //@ func Raft.applyLoop
